@@ -28,7 +28,7 @@ ALPHA = {"rp64": 7, "jive": 7, "rp62": 3}
 
 META = dict(
     technique="TLC trace validation of recorded Rescue permutation / round calls against a by-definition TLA+ round (BigNat witness checking) + TLC-generated sponge/Jive mode terms over a free permutation replayed on the real entry points",
-    text="Every recorded call of the real permutation (three hashers; quick: known-answer vector + 7 states, thorough: + 480 states per hasher, boundary-biased incl. Montgomery-limb extremes, the carry corner of the split-limb MDS reduction and non-canonical representations) and of the public round function is accepted by TLC only if each of its 7 rounds satisfies the textbook definition (power S-box, matrix MDS, pinned round constants, inverse S-box by its defining equation) in exact integer arithmetic; known-answer vectors of the sage reference and MDS*INV_MDS=I are checked too. For the modes TLC enumerates byte lengths 0..120 (0..300+), element counts 0..20 (42) in degrees 1-3, 0..5 (9) digests and boundary integers and the real hash / hash_elements / merge / merge_many / merge_with_int must equal the spec's term evaluated with the real permutation.",
+    text="Every recorded call of the real permutation (three hashers; quick: known-answer vector + 10 states, thorough: + 480 states per hasher, boundary-biased incl. Montgomery-limb extremes, the carry corners of the split-limb MDS reduction (folded-sum overflow; mixes of the S-box fixed points 0, 1, -1) and non-canonical representations) and of the public round function is accepted by TLC only if each of its 7 rounds satisfies the textbook definition (power S-box, matrix MDS, pinned round constants, inverse S-box by its defining equation) in exact integer arithmetic; known-answer vectors of the sage reference and MDS*INV_MDS=I are checked too. For the modes TLC enumerates byte lengths 0..120 (0..300+), element counts 0..20 (42) in degrees 1-3, 0..5 (9) digests and boundary integers and the real hash / hash_elements / merge / merge_many / merge_with_int must equal the spec's term evaluated with the real permutation.",
     note="Round constants and the 62-bit MDS matrix are pinned from the tree at design time (offline sandbox), anchored by the sage known-answer vectors quoted in the unit tests; permutation conformance is sampled (states chosen by class, not exhaustive); witnesses are untrusted (unique-solution equations); mode terms are evaluated with the real permutation and real field addition (field arithmetic itself is C10).",
     design="7/C16")
 
@@ -58,7 +58,8 @@ def perm_classes(tier, seed):
     rot = [c for c in INTERESTING if c not in (3, 4)]
     pick = {rot[(3 * seed + i * 7) % len(rot)] for i in range(3)}
     # class 11 + 12 * v: v even = the folded MDS sum overflows 64 bits, v odd = it stops just short
-    return [3, 4, 11 + 24 * (seed % 3), 23 + 24 * (seed % 3)] + sorted(pick)
+    # class 10 + 12 * v: mixes of the S-box fixed points 0, 1, -1 (v % 4 selects the pattern, v // 4 the position)
+    return [3, 4, 11 + 24 * (seed % 3), 23 + 24 * (seed % 3), 10 + 48 * (seed % 12), 22 + 12 * (seed % 2), 46 + 48 * (seed % 12)] + sorted(pick - {10})
 
 
 # ------------------------------------------------------------------------------------------------
